@@ -4,6 +4,7 @@ end to end with the stand-in renderer)."""
 import itertools
 import json
 import random
+import re
 import sys
 
 import c13_gen as S
@@ -221,6 +222,54 @@ def impl_find_component(a):
     from xsdata.utils import collections
 
     return ok(collections.find_connected_component(a["groups"], a["value"]))
+
+
+def gen_order_respected(rng, tier):
+    """child orders of the occurrences of one element: hand-picked, all small cases, and occurrences that
+    share a prefix and a suffix and differ by runs of new children in the middle"""
+    hand = [
+        [["id", "customer", "priority", "total"], ["id", "giftwrap", "coupon", "total"]],
+        [["v", "c"], ["v", "b"], ["b", "c"]],
+        [["b", "c"], ["v", "b"], ["v", "c"]],
+        [["a", "z"], ["a", "p", "q", "s", "z"], ["a", "b", "c", "z"]],
+        [[], ["a"]], [["a", "b"], ["b", "a"]], [["a", "b", "c"], ["c"], ["x", "y", "a"]],
+    ]
+    for h in hand:
+        yield {"lists": h}
+    subs = [list(c) for n in range(0, 4) for c in itertools.permutations("abc", n)]
+    for x in subs:  # bounded exhaustive: two and three occurrences over three names, any order
+        for y in subs:
+            yield {"lists": [x, y]}
+    for _ in range(n_cases(tier, 300, 6000)):
+        order = list("abcdefghij")[: rng.randint(3, 10)]
+        if rng.random() < 0.7:  # sub-orders of one hidden order: prefix, suffix, runs in between
+            lists = []
+            for _ in range(rng.randint(2, 5)):
+                keep, i = [], 0
+                while i < len(order):
+                    run = rng.randint(1, 3)
+                    if i == 0 or i + run >= len(order) or rng.random() < 0.5:
+                        keep.extend(order[i:i + run])
+                    i += run
+                lists.append(keep)
+        else:
+            lists = [rng.sample(order, rng.randint(0, len(order))) for _ in range(rng.randint(1, 4))]
+        yield {"lists": lists}
+
+
+def impl_order_respected(a):
+    from xsdata.codegen.utils import ClassUtils
+
+    classes = [real_class({"qname": "r", "ns": None, "nillable": False, "mixed": False, "attrs": [
+        {"tag": "Element", "name": n, "ns": None, "index": i, "types": [], "min": 1, "max": 1, "seq": None} for i, n in enumerate(l)]})
+        for l in a["lists"]]
+    try:
+        merged = [x.name for x in ClassUtils.sorted_attrs(classes)]
+    except Exception as e:  # noqa: BLE001
+        return leak(e)
+    rank = {n: i for i, n in enumerate(merged)}
+    real = all([rank[n] for n in l] == sorted(rank[n] for n in l) for l in a["lists"])
+    return ok({"real": real, "replica": order_consistent(a["lists"])})
 
 
 def gen_groups(rng, tier):
@@ -666,11 +715,13 @@ def interleave_blocks(names):
     return out
 
 
-def region_groups(trees):
+def region_groups(trees, only=None):
     """an element name whose occurrences number their blocks of repeats differently: one block number
     names different blocks, or a child sits in two different blocks.  (An occurrence in which the child
     does not repeat at all is fine: the marker of any occurrence is kept.)"""
     for q, els in occurrences(trees).items():
+        if only is not None and q != only:
+            continue
         seen = {}
         parts = [(e, interleave_blocks([c["q"] for c in e["c"]])) for e in els]
         numbered = {}
@@ -816,7 +867,20 @@ def greedy_merge(name_lists):
     return merged
 
 
-def region_order(trees):
+def order_consistent(lists):
+    """the greedy merge of these child orders (the UNCHANGED algorithm: the Python replica `greedy_merge`,
+    tied to the Lean model's `orderRespected` and to the real `sorted_attrs` by `smp.order_respected`) is a
+    linear extension of every one of them"""
+    merged = greedy_merge(lists)
+    rank = {n: i for i, n in enumerate(merged)}
+    for names in lists:
+        ranks = [rank[n] for n in names]
+        if ranks != sorted(ranks):
+            return False
+    return True
+
+
+def region_order(trees, only=None):
     """an element name whose occurrences are only jointly consistent about the order of their children:
     the greedy merge of the child orders contradicts one of them"""
     groups = {}
@@ -824,12 +888,10 @@ def region_order(trees):
         for e in flatten_order(t):
             groups.setdefault(e["q"], []).append(attr_names(e))
     for q, lists in groups.items():
-        merged = greedy_merge(lists)
-        rank = {n: i for i, n in enumerate(merged)}
-        for names in lists:
-            ranks = [rank[n] for n in names]
-            if ranks != sorted(ranks):
-                return f"children of {q}: the merged field order {merged} contradicts the occurrence {names}"
+        if only is not None and q != only:
+            continue
+        if not order_consistent(lists):
+            return f"children of {q}: the merged field order {greedy_merge(lists)} contradicts one of the occurrences {lists}"
     return None
 
 
@@ -843,8 +905,36 @@ XML_REGIONS = [
 ]
 
 
-def xml_region(docs):
+REORDERED = re.compile(r"re-serialised differently: (.*): children (\[.*\]) became (\[.*\])$")
+
+
+def reordered_element(msg):
+    """the element whose children came back as a permutation of themselves, if that is what `msg` reports"""
+    m = REORDERED.search(msg or "")
+    if not m:
+        return None
+    try:
+        before, after = eval(m.group(2)), eval(m.group(3))  # noqa: S307  (lists of names printed by infoset_diff)
+    except Exception:  # noqa: BLE001
+        return None
+    if sorted(before) != sorted(after):
+        return None
+    q = re.search(r"/(\{[^}]*\}[^/{}]+|[^/{}]+)$", m.group(1))
+    return q.group(1) if q else None
+
+
+def xml_region(docs, msg=None):
+    """the listed finding whose region holds these samples.  A failure that is a pure reordering of the
+    children of an element is only ever attributed to the two order findings, and only when their predicate
+    holds for THAT element: a wrong order where the unchanged merge is consistent is a new violation."""
     trees = [S.from_xml(d) for d in docs]
+    q = reordered_element(msg)
+    if q is not None:
+        for fid, pred in (("C13-sequence-numbers-positional", region_groups), ("C13-field-order-greedy-merge", region_order)):
+            why = pred(trees, only=q)
+            if why:
+                return fid, why
+        return None
     for fid, pred in XML_REGIONS:
         why = pred(trees)
         if why:
@@ -928,6 +1018,10 @@ HAND_OK_XML = [
     ["<r><a>1</a><b>x</b><a>2</a><b>y</b><c>z</c></r>"],
     ['<p:r xmlns:p="urn:p" xmlns:q="urn:q" q:at="1" at2="v"><p:a>1</p:a><q:b>x</q:b><c>z</c></p:r>'],
     ["<r><p>hello <b>x</b> world</p></r>"],
+    # a later sample with a run of two new children in front of a known one (seeded/C13-sorted-attrs-reversed-run)
+    ['<order xmlns="urn:shop"><id>1001</id><customer>Jane</customer><priority>3</priority><total>19.9</total></order>',
+     '<order xmlns="urn:shop"><id>1002</id><giftwrap>true</giftwrap><coupon>SPRING</coupon><total>5.25</total></order>'],
+    ["<r><i><a>1</a><z>9</z></i><i><a>2</a><p>x</p><q>y</q><s>w</s><z>8</z></i><i><a>3</a><b>u</b><c>v</c><z>7</z></i></r>"],
     ["<r><p><b/> tail only</p><p><b>x</b></p></r>"],
     ["<r><p><b/><b/> tail<i>x</i></p><p>lead <i>y</i></p></r>"],
     ["<r><a>1</a><o>true</o></r>", "<r><a>2</a></r>"],
@@ -959,7 +1053,8 @@ def outcome(msg, region):
 
 
 def impl_e2e_xml(a):
-    return outcome(oracle_xml(a), xml_region(a["docs"]))
+    msg = oracle_xml(a)
+    return outcome(msg, xml_region(a["docs"], msg))
 
 
 def e2e_json_args(docs):
@@ -998,6 +1093,9 @@ CORRS = [
     Corr("smp.infer", gen_infer, impl_infer, classify=classify_infer, describe="RawDocumentMapper.build_attr_type on strings, JSON literals, xsi:type"),
     Corr("smp.components", gen_components, impl_components, describe="collections.connected_components"),
     Corr("smp.find_component", gen_find_component, impl_find_component, describe="collections.find_connected_component"),
+    Corr("smp.order_respected", gen_order_respected, impl_order_respected, classify=lambda a, o: str(o.get("ok")),
+         describe="is the order ClassUtils.sorted_attrs derives a linear extension of every occurrence's order: real code, the Python replica behind "
+                  "the region of C13-field-order-greedy-merge, and the model's `orderRespected` (hypothesis of field_order_respected_partial) agree"),
     Corr("smp.groups", gen_groups, impl_groups, classify=classify_groups, describe="ElementMapper.group_repeating_attrs / sequential_groups / sequence numbers"),
     Corr("smp.map_xml", gen_map_xml, impl_map_xml, classify=classify_classes, describe="TreeParser + ElementMapper.map on a document vs model on lxml's reading of the same text"),
     Corr("smp.map_json", gen_map_json, impl_map_json, classify=classify_classes, describe="DictMapper.map"),
@@ -1023,7 +1121,7 @@ def gen_oracle_json(rng, tier):
 
 
 def covered_xml(a, msg):
-    r = xml_region(a["docs"])
+    r = xml_region(a["docs"], msg)
     return r[0] if r else None
 
 
@@ -1066,7 +1164,7 @@ def replay_xml(fid):
     def run():
         docs = WITNESS_XML[fid]
         msg = oracle_xml({"docs": docs})
-        reg = xml_region(docs)
+        reg = xml_region(docs, msg)
         return (msg is not None and reg is not None and reg[0] == fid, msg or "the samples now round-trip")
 
     return run
